@@ -29,6 +29,8 @@ type PropCheck struct {
 	Post func(c *checkRun)
 	// NeedWitness lists reach ids of which at least one path must exist per job (vacuity guard)
 	Witness []string
+	// OnlyObligations, if set, restricts the check to harness obligations whose id starts with one of these prefixes
+	OnlyObligations []string
 }
 
 var propChecks = map[string]*PropCheck{}
@@ -192,6 +194,17 @@ func runCheck(prop, tier string) int {
 				abortMsgs[trunc(firstLine(p.Msg), 160)]++
 			}
 			for _, ob := range p.Obligations {
+				if len(pc.OnlyObligations) > 0 && ob.ID != "implicit/no-panic" {
+					keep := false
+					for _, pre := range pc.OnlyObligations {
+						if strings.HasPrefix(ob.ID, pre) {
+							keep = true
+						}
+					}
+					if !keep {
+						continue
+					}
+				}
 				obTotal++
 				switch ob.Result {
 				case "discharged":
